@@ -57,9 +57,13 @@ TOP = {
     "c_prop_set": ("class C{u}:\n    @property\n    def p{u}(self) -> set[int]:\n        return set()\n\n    def m{u}(self) -> int:\n        return 1\n", [("class", "C{u}", []), ("attr", "p{u}", ["set"]), ("fun", "m{u}", [])]),
     "c_nested_dirty": ("class C{u}:\n    class N{u}:\n        def __init__(self, a) -> None:\n            pass\n\n    def m{u}(self) -> int:\n        return 1\n", [("class", "C{u}", []), ("class", "N{u}", ["param"]), ("fun", "m{u}", [])]),
     "c_inherit_private": ("class _P{u}:\n    def i{u}(self, a: set[int]) -> int:\n        return 1\n\n\nclass C{u}(_P{u}):\n    def m{u}(self) -> int:\n        return 1\n", [("class", "C{u}", []), ("fun", "i{u}", ["set"]), ("fun", "m{u}", [])]),
+    # the marker stems from the class's type-parameter list (bound / constraint), not from a member
+    "c_gen_bound_tuple": ("class C{u}(Generic[TCB]):\n    x{u}: int = 1\n\n    def m{u}(self, a: int) -> int:\n        return a\n", [("class", "C{u}", ["tuple"]), ("attr", "x{u}", []), ("fun", "m{u}", [])]),
+    "c_gen_constr_set": ("class C{u}(Generic[TCS]):\n    def m{u}(self, a: int) -> int:\n        return a\n", [("class", "C{u}", ["set"]), ("fun", "m{u}", [])]),
+    "c_gen_bound_tuple_empty": ("class C{u}(Generic[TCB]):\n    pass\n", [("class", "C{u}", ["tuple"])]),
     "e_enum": ("class E{u}(Enum):\n    A{u} = 1\n", [("enum", "E{u}", [])]),
 }
-HEADER = "from enum import Enum\n\n\ndef untyped_call():\n    return object()\n\n\nclass BaseA:\n    pass\n\n\nclass BaseB:\n    pass\n\n\n"
+HEADER = "from enum import Enum\nfrom typing import Generic, TypeVar\n\nTCB = TypeVar(\"TCB\", covariant=True, bound=tuple[int, str])\nTCS = TypeVar(\"TCS\", set[int], int)\n\n\ndef untyped_call():\n    return object()\n\n\nclass BaseA:\n    pass\n\n\nclass BaseB:\n    pass\n\n\n"
 
 # members inside one class body: name -> (source template indented by 4, [(kind, name, markers)])
 MEMBERS = {
